@@ -109,7 +109,11 @@ type scanResult struct {
 	status   string   // ok | err | panic
 	words    []string // KIND|nl|cm|'text   (comments excluded)
 	comments []string // comment texts in order
+	oddLit   bool     // a string / raw string literal contains a control character (tab, newline, ...)
+	oddCm    bool     // a comment contains a control character
 }
+
+func hasCtl(s string) bool { return strings.ContainsAny(s, "\t\n\r\f\v") }
 
 // scanAll runs the real scanner over the whole text. nl = 1 iff the token's line is greater than
 // the line of the previous non-comment token (the parser only ever compares those two lines);
@@ -145,7 +149,13 @@ func scanAll(src string) (res scanResult) {
 	for i, tok := range raw {
 		if tok.Type == token.COMMENT || tok.Type == token.DOCUMENT {
 			res.comments = append(res.comments, strings.TrimSpace(tok.Text))
+			if hasCtl(tok.Text) {
+				res.oddCm = true
+			}
 			continue
+		}
+		if (tok.Type == token.STRING || tok.Type == token.RAW_STRING) && hasCtl(tok.Text) {
+			res.oddLit = true
 		}
 		k, ok := kindName[tok.Type]
 		if !ok {
@@ -368,6 +378,13 @@ func formatSrc(src string) (status, out string) {
 	return "ok", b.String()
 }
 
+func b01(b bool) string {
+	if b {
+		return "1"
+	}
+	return "0"
+}
+
 func sameStrings(a, b []string) bool {
 	if len(a) != len(b) {
 		return false
@@ -390,7 +407,7 @@ func observe(src string) string {
 	sc := scanAll(src)
 	ps, a1 := parseDump(src)
 	fs, out := formatSrc(src)
-	w = append(w, "lex="+sc.status, "parse="+ps, "fmt="+fs, "T1")
+	w = append(w, "lex="+sc.status, "parse="+ps, "fmt="+fs, "oddlit="+b01(sc.oddLit), "oddcm="+b01(sc.oddCm), "T1")
 	if sc.status == "ok" {
 		w = append(w, sc.words...)
 	}
